@@ -1,4 +1,4 @@
-\* C15 report, required design, scaled widths (2,3), 2 files + 1 #line-only name, <= 10 lines, <= 4 items, reports of <= 3 lines x 3 columns: ReportFaithful must hold
+\* C15 report, required design, scaled widths (2,3), 2 files + 1 #line-only name, <= 8 lines, <= 4 items, reports of <= 3 lines x 3 columns: ReportFaithful must hold
 CONSTANTS
   CNO = 2
   LNO = 4
